@@ -153,6 +153,11 @@ pub trait Property {
     fn known(_case: &Self::Case, _failure: &Failure) -> Option<&'static str> {
         None
     }
+    /// id of the known finding that explains the *death of the process* (abort, stack overflow) on this case, judged
+    /// from the case alone (it cannot be executed in the judging process). Only consulted for committed witnesses.
+    fn known_death(_case: &Self::Case) -> Option<&'static str> {
+        None
+    }
 }
 
 // ---------------------------------------------------------------------------------------------
